@@ -1,5 +1,6 @@
 import Model.Conv
 import Model.ConvReg
+import Model.ConvBuf
 import Generated.C17GoKinds
 import Drivers.Common
 /-! `vm_c17`: line protocol over `Model.Conv`, instantiated with the regenerated kind tables
@@ -249,6 +250,20 @@ def handle (line : String) : String :=
         | .inl _ => none
         | .inr _ => some (match t with | some tr => traceStr tr | none => "unregistered"))
     | _, _, _ => "bad-request"
+  | ["buf", policy, n, sched] =>
+    -- several calls of one callee in flight: caller c passes the values (c, 0) … (c, n-1); the answer
+    -- lists per caller which (caller, slot) values its Go code received
+    match n.toNat?, parseList' "," String.toNat? sched with
+    | some n, some sc =>
+      let bufOf : Nat → Nat := if policy == "shared" then fun _ => 0
+        else Model.ConvBuf.bufPolicy Generated.C17GoKinds.callPathWrites
+      let st := Model.ConvBuf.run bufOf (fun c => (List.range n).map (fun i => c * 100 + i)) n sc
+      " ".intercalate (sc.eraseDups.map fun c => match st.recv c with
+        | none => s!"{c}:-"
+        | some r => s!"{c}:" ++ ",".intercalate (r.map fun o => match o with
+            | none => "?"
+            | some v => s!"{v / 100}.{v % 100}"))
+    | _, _ => "bad-request"
   | _ => "bad-request"
 
 end C17Drv
